@@ -221,6 +221,26 @@ func runC20Pure(rc *RunCtx) {
 			rc.Eval(1)
 		}
 
+		// (1c) the same for a path that starts with a separator (an empty first segment and no other empty one): the
+		// parent string is then "" or "/...": the halves must still combine to the address of the plain path
+		if hasEmpty && k >= 2 && segs[0] == "" && !lastEmpty {
+			inner := false
+			for _, sg := range segs[1:] {
+				inner = inner || sg == ""
+			}
+			if !inner {
+				ph, chh := fttypes.MerkleHelper(p)
+				if got, want := fttypes.AddToMerkle(ph, chh), fttypes.MerklePath(p); got != want {
+					rc.Fail("C20/client-split-disagrees/leading-separator", "MerkleHelper(%s) = (%s, %s): combined %s, MerklePath of the plain path = %s", ftQ(p), ph, chh, got, want)
+				}
+				if chh != ftH(segs[k-1]) {
+					rc.Fail("C20/client-split-child-not-hash-of-name", "MerkleHelper(%s): child part %s is not the hash of the last segment %s", ftQ(p), chh, ftQ(segs[k-1]))
+				}
+				rc.Eval(1)
+				rc.Count("leading-separator-paths", 1)
+			}
+		}
+
 		// (2) every split point
 		for i2 := 0; i2 < k; i2++ {
 			child := segs[i2]
